@@ -56,4 +56,39 @@ theorem defined_triPerimeter (a b c : V3 K) (a' b' c' : V2 K) : letI := fieldNum
   letI := fieldNum K sq
   exact ⟨by simp only [triPerimeter3, optsimp], by simp only [triPerimeter2, optsimp]⟩
 
+/-! ## `Segment::length`, `Segment::direction` -/
+
+/-- **C20 (`Segment::length`)**: the norm of a difference — defined for every segment, zero-length included. -/
+theorem defined_segLength (a b : V3 K) (a' b' : V2 K) : letI := fieldNum K sq
+    (segLength3 (lift3 a : V3 (Opt K sq)) (lift3 b) = val (segLength3 a b)) ∧
+    (segLength2 (lift2 a' : V2 (Opt K sq)) (lift2 b') = val (segLength2 a' b')) := by
+  letI := fieldNum K sq
+  exact ⟨by simp only [segLength3, optsimp], by simp only [segLength2, optsimp]⟩
+
+/-- **C20 (`Segment::direction`)**: `Unit::try_new(b − a, EPSILON)` — `None` for a zero-length segment (no division is
+performed), `(b − a) / |b − a|` otherwise; the square-root operation is only assumed positive above `EPSILON²`. -/
+theorem defined_segDirection {θ : K} (hs : SqrtPos sq θ)
+    (hθ : letI := fieldNum K sq; θ ≤ (segEps : K) * segEps) (a b : V3 K) (a' b' : V2 K) : letI := fieldNum K sq
+    (segDirection3 (lift3 a : V3 (Opt K sq)) (lift3 b) = (segDirection3 a b).map lift3) ∧
+    (segDirection2 (lift2 a' : V2 (Opt K sq)) (lift2 b') = (segDirection2 a' b').map lift2) := by
+  letI := fieldNum K sq
+  have he : (segEps : Opt K sq) = val (segEps : K) := rfl
+  refine ⟨?_, ?_⟩
+  · simp only [segDirection3, he, optsimp]
+    by_cases h : (segEps : K) * segEps < (b.sub a).normSq
+    · have hn : sq (b.sub a).normSq ≠ 0 := hs.ne (lt_of_le_of_lt hθ h)
+      have hnn : ¬ (b.sub a).normSq < 0 := not_lt.mpr (normSq3_nonneg (sq := sq) _)
+      simp only [if_pos h, if_neg hnn, if_neg hn, optsimp]
+    · simp only [if_neg h, optsimp]
+  · simp only [segDirection2, he, optsimp]
+    by_cases h : (segEps : K) * segEps < (b'.sub a').normSq
+    · have hn : sq (b'.sub a').normSq ≠ 0 := hs.ne (lt_of_le_of_lt hθ h)
+      have hnn : ¬ (b'.sub a').normSq < 0 := not_lt.mpr (normSq2_nonneg (sq := sq) _)
+      simp only [if_pos h, if_neg hnn, if_neg hn, optsimp]
+    · simp only [if_neg h, optsimp]
+
+/-- non-vacuity of the hypotheses of `defined_segDirection` (`sq x = x` over `ℚ`, `θ = 0`) -/
+example : SqrtPos (fun x : ℚ => x) 0 ∧ (letI := fieldNum ℚ (fun x : ℚ => x); (0 : ℚ) ≤ (segEps : ℚ) * segEps) :=
+  ⟨fun _ h => h, mul_self_nonneg _⟩
+
 end C20
